@@ -210,6 +210,8 @@ def run(ctx: core.Ctx):
                         "CPython's re engine implements the documented semantics of the pattern"]
     from .. import b2check, gen
     b2check.run_b2(ctx, thread_jobs, ["C02t"], label="chunked arrival through the real reader thread", accept=False)
+    b2check.run_b2(ctx, lambda rng, th: [(gen.with_second(rng, gen.conn_chunked(rng, T)), rng.randrange(10 ** 9), rng.choice([0, 3])) for _ in range(3000 if th else 80)],
+                   ["C02two"], label="a second connection with its own traffic alive in the same process (first connection's callback judged)", accept=False)
     b2check.run_b2(ctx, lambda rng, th: [(gen.conn_reconnect(rng, T), rng.randrange(10 ** 9), rng.choice([0, 0, 3])) for _ in range(4000 if th else 120)],
                    ["C02r"], label="connect() again on the same connection object after a close() / a lost link that left a partial line", accept=False)
     return ctx.finish()
@@ -219,7 +221,7 @@ def replay(ctx, path):
     rp = json.load(open(path))["replay"]
     if rp.get("path") == "b2":
         from .. import b2check
-        return b2check.replay_b2(rp, ["C02r" if rp["spec"].get("reconnect_device") else "C02t"])
+        return b2check.replay_b2(rp, ["C02r" if rp["spec"].get("reconnect_device") else ("C02two" if rp["spec"].get("second") else "C02t")])
     from ynca.connection import YncaProtocol
     p = YncaProtocol(lambda *a: print("impl callback:", a), None, 0)
     if "line" in rp:
